@@ -823,3 +823,167 @@ pub fn loopctx_push_break(ls: &mut Vec<LoopContext>, k: usize, pos: usize)
         final(ls)@[k as int].label == old(ls)@[k as int].label, final(ls)@[k as int].begin == old(ls)@[k as int].begin,
         final(ls)@[k as int].break_positions@ == old(ls)@[k as int].break_positions@.push(pos)
 { unimplemented!() }
+
+// ================= the shapes the properties name =================
+// tag: `seg` is what compile_expression / compile_block_statement appended for `e` (uninterpreted; its only axiom is the
+// defining one at the two functions' exits, so it constrains nothing but which call produced which bytes)
+pub uninterp spec fn emitted_by(e: Expression, seg: Seq<u8>) -> bool;
+pub uninterp spec fn block_emitted_by(b: BlockStatement, seg: Seq<u8>) -> bool;
+pub open spec fn seg(c: &Compiler, from: int, to: int) -> Seq<u8> { code(c).subrange(from, to) }
+pub open spec fn target_at(c: &Compiler, p: int) -> int { code(c)[p] as int * 256 + code(c)[p + 1] as int }
+pub open spec fn has_op(c: &Compiler, p: int, op: Opcode) -> bool { 0 <= p < code(c).len() && code(c)[p] == byte_of(op) }
+pub open spec fn ok_enc(c: &Compiler) -> bool { c.encoding_error is None }
+// C06  a && b:   <a>  JumpIfFalseNoPop end  Pop  <b>  end:
+pub open spec fn and_at(o: &Compiler, f: &Compiler, left: Expression, right: Expression, line: usize, p: int) -> bool {
+    code(o).len() <= p && p + 4 <= code(f).len() && emitted_by(left, seg(f, code(o).len() as int, p))
+        && has_op(f, p, Opcode::JumpIfFalseNoPop) && (ok_enc(f) ==> target_at(f, p + 1) == code(f).len()) && has_op(f, p + 3, Opcode::Pop)
+        && emitted_by(right, seg(f, p + 4, code(f).len() as int)) && lns(f)[p] == line
+}
+pub open spec fn and_shape(o: &Compiler, f: &Compiler, left: Expression, right: Expression, line: usize) -> bool {
+    exists|p: int| #[trigger] and_at(o, f, left, right, line, p)
+}
+// C06  a || b:   <a>  JumpIfFalseNoPop rhs  Jump end  rhs: Pop  <b>  end:
+pub open spec fn or_at(o: &Compiler, f: &Compiler, left: Expression, right: Expression, line: usize, p: int) -> bool {
+    code(o).len() <= p && p + 7 <= code(f).len() && emitted_by(left, seg(f, code(o).len() as int, p))
+        && has_op(f, p, Opcode::JumpIfFalseNoPop) && (ok_enc(f) ==> target_at(f, p + 1) == p + 6) && has_op(f, p + 3, Opcode::Jump)
+        && (ok_enc(f) ==> target_at(f, p + 4) == code(f).len()) && has_op(f, p + 6, Opcode::Pop)
+        && emitted_by(right, seg(f, p + 7, code(f).len() as int)) && lns(f)[p] == line
+}
+pub open spec fn or_shape(o: &Compiler, f: &Compiler, left: Expression, right: Expression, line: usize) -> bool {
+    exists|p: int| #[trigger] or_at(o, f, left, right, line, p)
+}
+// C06  if c {..} else ..:   <c>  JumpIfFalse else  <then>  Jump end  else: <else>  end:
+pub open spec fn if_at(o: &Compiler, f: &Compiler, cond: Expression, p: int, q: int) -> bool {
+    code(o).len() <= p && p + 3 <= q && q + 3 <= code(f).len() && emitted_by(cond, seg(f, code(o).len() as int, p))
+        && has_op(f, p, Opcode::JumpIfFalse) && (ok_enc(f) ==> target_at(f, p + 1) == q + 3) && has_op(f, q, Opcode::Jump)
+        && (ok_enc(f) ==> target_at(f, q + 1) == code(f).len())
+}
+pub open spec fn if_shape(o: &Compiler, f: &Compiler, cond: Expression) -> bool {
+    exists|p: int, q: int| #[trigger] if_at(o, f, cond, p, q)
+}
+// C06  while c {..}:   begin: <c>  JumpIfFalse end  <body>  Jump begin  end:
+pub open spec fn while_at(o: &Compiler, f: &Compiler, cond: Expression, p: int) -> bool {
+    code(o).len() <= p && p + 6 <= code(f).len() && emitted_by(cond, seg(f, code(o).len() as int, p))
+        && has_op(f, p, Opcode::JumpIfFalse) && (ok_enc(f) ==> target_at(f, p + 1) == code(f).len())
+        && has_op(f, code(f).len() - 3, Opcode::Jump) && (ok_enc(f) ==> target_at(f, code(f).len() - 2) == code(o).len())
+}
+pub open spec fn while_shape(o: &Compiler, f: &Compiler, cond: Expression) -> bool {
+    exists|p: int| #[trigger] while_at(o, f, cond, p)
+}
+pub proof fn lemma_target(v: usize)
+    requires v <= 0xffff ensures hi(v) as int * 256 + lo(v) as int == v
+{
+    let x = v as u16;
+    assert(x == v);
+    assert((x / 256) as u8 == x / 256);
+    assert((x % 256) as u8 == x % 256);
+}
+pub proof fn lemma_fits_jump(op: Opcode, v: usize)
+    requires ilen(op) == 3, fits_all(op, seq![v]) ensures v <= 0xffff
+{
+    assert(opcode_widths(op)[0] == 2);
+    assert(fits(opcode_widths(op)[0], seq![v][0]));
+}
+// what a patch of the 3-byte jump at p to target v leaves in the stream
+pub proof fn lemma_patched_jump(co: Seq<u8>, cf: Seq<u8>, p: int, v: usize)
+    requires 0 <= p, p + 3 <= co.len(), ilen(op_at(co, p)) == 3, patched(co, cf, p, v)
+    ensures cf.len() == co.len(), cf[p] == byte_of(op_at(co, p)), cf[p + 1] == hi(v), cf[p + 2] == lo(v),
+        forall|i: int| 0 <= i < co.len() && !(p <= i < p + 3) ==> cf[i] == co[i]
+{
+    let op = op_at(co, p);
+    let b = ins_bytes(op, seq![v]);
+    assert(b.len() == 3);
+    assert(cf == co.subrange(0, p) + b + co.subrange(p + 3, co.len() as int));
+    assert(cf[p] == b[0]); assert(cf[p + 1] == b[1]); assert(cf[p + 2] == b[2]);
+    assert forall|i: int| 0 <= i < co.len() && !(p <= i < p + 3) implies cf[i] == co[i] by {
+        if i < p { assert(cf[i] == co.subrange(0, p)[i]); } else { assert(cf[i] == co.subrange(p + 3, co.len() as int)[i - p - 3]); }
+    }
+}
+pub proof fn lemma_and_shape(o: &Compiler, s1: &Compiler, s2: &Compiler, s4: &Compiler, f: &Compiler, left: Expression, right: Expression, line: usize)
+    requires code(o).len() <= code(s1).len(), emitted_by(left, seg(s1, code(o).len() as int, code(s1).len() as int)),
+        is_prefix(code(s1), code(s4)), code(s4).len() >= code(s1).len() + 4, lns(s4).len() == code(s4).len(),
+        op_at(code(s4), code(s1).len() as int) == Opcode::JumpIfFalseNoPop, code(s4)[(code(s1).len() + 3) as int] == byte_of(Opcode::Pop),
+        lns(s2).len() == code(s1).len() + 3, lns(s2)[code(s1).len() as int] == line, lns(s2).len() <= lns(s4).len(), lns(s4).subrange(0, lns(s2).len() as int) == lns(s2),
+        emitted_by(right, seg(s4, (code(s1).len() + 4) as int, code(s4).len() as int)),
+        patched(code(s4), code(f), code(s1).len() as int, code(s4).len() as usize), lns(f) == lns(s4), code(s4).len() <= usize::MAX,
+        fits_all(Opcode::JumpIfFalseNoPop, seq![code(s4).len() as usize]) || f.encoding_error is Some,
+    ensures and_shape(o, f, left, right, line)
+{
+    let p = code(s1).len() as int;
+    let v = code(s4).len() as usize;
+    lemma_patched_jump(code(s4), code(f), p, v);
+    assert(seg(f, code(o).len() as int, p) =~= seg(s1, code(o).len() as int, p)) by {
+        assert forall|i: int| 0 <= i < p implies code(f)[i] == code(s1)[i] by { assert(code(s4).subrange(0, p)[i] == code(s4)[i]); }
+    }
+    assert(seg(f, p + 4, code(f).len() as int) =~= seg(s4, p + 4, code(s4).len() as int));
+    if ok_enc(f) { lemma_fits_jump(Opcode::JumpIfFalseNoPop, v); lemma_target(v); assert(target_at(f, p + 1) == code(f).len()); }
+    assert(has_op(f, p, Opcode::JumpIfFalseNoPop));
+    assert(has_op(f, p + 3, Opcode::Pop));
+    assert(lns(f)[p] == line) by { assert(lns(s4).subrange(0, lns(s2).len() as int)[p] == lns(s4)[p]); }
+    assert(and_at(o, f, left, right, line, p));
+}
+pub proof fn lemma_or_shape(o: &Compiler, s1: &Compiler, s3: &Compiler, s4: &Compiler, s6: &Compiler, f: &Compiler, left: Expression, right: Expression, line: usize)
+    requires code(o).len() <= code(s1).len(), emitted_by(left, seg(s1, code(o).len() as int, code(s1).len() as int)),
+        is_prefix(code(s1), code(s3)), code(s3).len() == code(s1).len() + 6, lns(s3).len() == code(s3).len(), code(s3).len() <= usize::MAX,
+        op_at(code(s3), code(s1).len() as int) == Opcode::JumpIfFalseNoPop, op_at(code(s3), (code(s1).len() + 3) as int) == Opcode::Jump, lns(s3)[code(s1).len() as int] == line,
+        patched(code(s3), code(s4), code(s1).len() as int, code(s3).len() as usize), lns(s4) == lns(s3),
+        fits_all(Opcode::JumpIfFalseNoPop, seq![code(s3).len() as usize]) || s4.encoding_error is Some,
+        is_prefix(code(s4), code(s6)), lns(s4).len() <= lns(s6).len(), lns(s6).subrange(0, lns(s4).len() as int) == lns(s4), code(s6).len() >= code(s1).len() + 7, code(s6).len() <= usize::MAX,
+        code(s6)[(code(s1).len() + 6) as int] == byte_of(Opcode::Pop), emitted_by(right, seg(s6, (code(s1).len() + 7) as int, code(s6).len() as int)),
+        patched(code(s6), code(f), (code(s1).len() + 3) as int, code(s6).len() as usize), lns(f) == lns(s6),
+        fits_all(Opcode::Jump, seq![code(s6).len() as usize]) || f.encoding_error is Some, s4.encoding_error is Some ==> f.encoding_error is Some,
+    ensures or_shape(o, f, left, right, line)
+{
+    let p = code(s1).len() as int;
+    lemma_patched_jump(code(s3), code(s4), p, code(s3).len() as usize);
+    assert forall|i: int| 0 <= i < p + 6 implies code(s6)[i] == code(s4)[i] by { assert(code(s6).subrange(0, code(s4).len() as int)[i] == code(s6)[i]); }
+    assert(op_at(code(s6), p + 3) == Opcode::Jump);
+    lemma_patched_jump(code(s6), code(f), p + 3, code(s6).len() as usize);
+    assert(seg(f, code(o).len() as int, p) =~= seg(s1, code(o).len() as int, p)) by {
+        assert forall|i: int| 0 <= i < p implies code(f)[i] == code(s1)[i] by { assert(code(s3).subrange(0, p)[i] == code(s3)[i]); }
+    }
+    assert(seg(f, p + 7, code(f).len() as int) =~= seg(s6, p + 7, code(s6).len() as int));
+    lemma_byte_of_op(code(s3)[p]);
+    if ok_enc(f) {
+        lemma_fits_jump(Opcode::JumpIfFalseNoPop, code(s3).len() as usize); lemma_target(code(s3).len() as usize);
+        lemma_fits_jump(Opcode::Jump, code(s6).len() as usize); lemma_target(code(s6).len() as usize);
+        assert(target_at(f, p + 1) == p + 6);
+        assert(target_at(f, p + 4) == code(f).len());
+    }
+    assert(lns(f)[p] == line) by { assert(lns(s6).subrange(0, lns(s4).len() as int)[p] == lns(s6)[p]); }
+    assert(has_op(f, p, Opcode::JumpIfFalseNoPop));
+    assert(has_op(f, p + 3, Opcode::Jump));
+    assert(has_op(f, p + 6, Opcode::Pop));
+    assert(or_at(o, f, left, right, line, p));
+}
+pub proof fn lemma_if_shape(o: &Compiler, s1: &Compiler, sq: &Compiler, s7: &Compiler, s8: &Compiler, f: &Compiler, cond: Expression)
+    requires code(o).len() <= code(s1).len(), emitted_by(cond, seg(s1, code(o).len() as int, code(s1).len() as int)),
+        is_prefix(code(s1), code(sq)), code(sq).len() >= code(s1).len() + 6, code(sq).len() <= usize::MAX,
+        op_at(code(sq), code(s1).len() as int) == Opcode::JumpIfFalse, op_at(code(sq), code(sq).len() - 3) == Opcode::Jump,
+        patched(code(sq), code(s7), code(s1).len() as int, code(sq).len() as usize),
+        fits_all(Opcode::JumpIfFalse, seq![code(sq).len() as usize]) || s7.encoding_error is Some,
+        is_prefix(code(s7), code(s8)), code(s8).len() <= usize::MAX,
+        patched(code(s8), code(f), code(sq).len() - 3, code(s8).len() as usize),
+        fits_all(Opcode::Jump, seq![code(s8).len() as usize]) || f.encoding_error is Some, s7.encoding_error is Some ==> f.encoding_error is Some,
+    ensures if_shape(o, f, cond)
+{
+    let p = code(s1).len() as int;
+    let q = code(sq).len() - 3;
+    lemma_patched_jump(code(sq), code(s7), p, code(sq).len() as usize);
+    assert forall|i: int| 0 <= i < q + 3 implies code(s8)[i] == code(s7)[i] by { assert(code(s8).subrange(0, code(s7).len() as int)[i] == code(s8)[i]); }
+    assert(op_at(code(s8), q) == Opcode::Jump);
+    lemma_patched_jump(code(s8), code(f), q, code(s8).len() as usize);
+    assert(seg(f, code(o).len() as int, p) =~= seg(s1, code(o).len() as int, p)) by {
+        assert forall|i: int| 0 <= i < p implies code(f)[i] == code(s1)[i] by { assert(code(sq).subrange(0, p)[i] == code(sq)[i]); }
+    }
+    lemma_byte_of_op(code(sq)[p]);
+    if ok_enc(f) {
+        lemma_fits_jump(Opcode::JumpIfFalse, code(sq).len() as usize); lemma_target(code(sq).len() as usize);
+        lemma_fits_jump(Opcode::Jump, code(s8).len() as usize); lemma_target(code(s8).len() as usize);
+        assert(target_at(f, p + 1) == q + 3);
+        assert(target_at(f, q + 1) == code(f).len());
+    }
+    assert(has_op(f, p, Opcode::JumpIfFalse));
+    assert(has_op(f, q, Opcode::Jump));
+    assert(if_at(o, f, cond, p, q));
+}
